@@ -19,13 +19,13 @@ ENVS = [("Unset", None), ("Empty", ""), ('(NonEmpty "1")', "1"), ('(NonEmpty "0"
 ENABLED = [("default", "EDefault"), ("true", "ETrue"), ("false", "EFalse"), ("slow", "ESlow")]
 DECOS = [("require", "KRequire"), ("ensure", "KEnsure"), ("snapshot", "KSnapshot"), ("invariant", "KInvariant")]
 FKINDS = ["function", "async", "lambda", "defaults", "checker", "staticmethod_obj"]
-CKINDS = ["plain", "dbc", "slots_repr"]
+CKINDS = ["plain", "dbc", "slots_repr", "plain_sub"]
 
 RULE = ("part 1: the full product interpreter mode {normal,-O,-OO} x ICONTRACT_SLOW {unset,'', '1','0','false'} x "
         "decorator {require,ensure,snapshot,invariant} x enabled {default,True,False,icontract.SLOW} x callable kind "
         "(function, coroutine function, lambda, function with defaults/*args/**kwargs, an existing checker, a staticmethod "
         "object - the contract written above @staticmethod; plain class, "
-        "DBC class, class with __repr__ and a property), one subprocess per (mode, environment); non-trivial = the row "
+        "DBC class, class with __repr__ and a property, plain sub-class of a class with an invariant), one subprocess per (mode, environment); non-trivial = the row "
         "is disabled in that configuration or enabled under -O/-OO.  part 2: generated checker-cluster programs (see C01) "
         "rendered with enabled=True spelled out and run under normal, -O and -OO; the complete observation (events, "
         "outcome) must be the same in all three and the same as the default rendering in the normal interpreter.  part 3: "
@@ -181,7 +181,7 @@ def run(tier, replay=None):
     if not replay or "ops" in rp3.get("case", {}):
         import elab_cluster as E
         import gen_elab
-        hist = [rp3["case"]] if replay else E.default_gen(rng, 150 if tier == "quick" else 3000)
+        hist = [rp3["case"]] if replay else E.load_corpus(PROP) + E.default_gen(rng, 150 if tier == "quick" else 3000)
         nelab = len(hist)
 
         def observe_elab(pyflags, explicit):
